@@ -47,6 +47,48 @@ def run_case(c):
     return obs
 
 
+class ProbeCond:
+    """wraps the semaphore's condition: every thread entering the lock first waits for the
+    other one, so two concurrent callers are both past anything they did BEFORE taking the
+    lock when the first of them gets in"""
+
+    def __init__(self, real, barrier):
+        self.real, self.barrier = real, barrier
+
+    def __enter__(self):
+        try:
+            self.barrier.wait(timeout=1.0)
+        except threading.BrokenBarrierError:
+            pass
+        return self.real.__enter__()
+
+    def __exit__(self, *a):
+        return self.real.__exit__(*a)
+
+    def __getattr__(self, name):
+        return getattr(self.real, name)
+
+
+def race_probe(n, missing, op):
+    """two threads call `op` concurrently on a semaphore of size n with `missing` slots taken"""
+    s = Sem(n)
+    for _ in range(missing):
+        s.acquire(False)
+    s._cond = ProbeCond(s._cond, threading.Barrier(2))
+    ths = [threading.Thread(target=getattr(s, op)) for _ in range(2)]
+    for t in ths:
+        t.start()
+    for t in ths:
+        t.join(5)
+    return dict(n=n, missing=missing, op=op, value=s._value, bound=s._initial_value,
+                hung=any(t.is_alive() for t in ths))
+
+
 if __name__ == '__main__':
-    cases = json.load(sys.stdin)
-    print(json.dumps([run_case(c) for c in cases]))
+    import threading
+    req = json.load(sys.stdin)
+    if isinstance(req, dict):
+        print(json.dumps(dict(cases=[run_case(c) for c in req['cases']],
+                              probes=[race_probe(*p) for p in req['probes']])))
+    else:
+        print(json.dumps([run_case(c) for c in req]))
